@@ -181,8 +181,16 @@ func checkResume(r *Run, twinOuts string, spec []CrashSpec) []Violation {
 			}
 		}
 	}
-	// (5) within one incarnation nothing runs twice
+	// (5) within one incarnation nothing runs twice - unless that incarnation retried
+	// failed jobs in-process ("Reattaching" more often than there were restarts: jobs
+	// lost in a power loss are found by the queue check and retried): a retry runs
+	// jobs again by design, and while it re-attaches, a submission still under way in
+	// the old job manager's goroutine can be reset and repeated (observation O-C05-a)
 	seen := map[string]bool{}
+	if strings.Count(r.outBuf.String(), "Reattaching in ") > r.Inc-1 {
+		r.Probes["in-process-retry-in-a-restarted-incarnation"]++
+		return out
+	}
 	for _, j := range r.Jobs {
 		k := fmt.Sprintf("%d|%s", j.Inc, j.Id())
 		if seen[k] {
